@@ -85,6 +85,12 @@ def _coord_value(kind, a, k, npart, L, T, lmax, prev):
     if kind == 'b':  # stripe boundary s*L/np shifted by k ulp
         s = int(a) % (npart + 1)
         x = _shift(T(s * L / npart), k, T)
+    elif kind == 'bw':  # stripe boundary shifted by +-2^|k| ulp: outside the rounding tolerance of the position dtype but closer
+        # than single precision resolves (a key computed with a float32 inverse width misplaces these float64 particles)
+        s = int(a) % (npart + 1)
+        x0 = T(s * L / npart)
+        m = min(abs(int(k)), 27 if T is np.float64 else 10)
+        x = T(x0 + (1 if k > 0 else -1) * T(2.0**m) * np.spacing(x0))
     elif kind == 'u':
         x = T((int(a) % 65536) / 65536.0 * L)
     elif kind == 'z':
@@ -116,9 +122,11 @@ def build(d):
     specs = [list(p) for p in d['parts']]
     bulk = int(d['bulk'])
     if bulk:
-        kinds = rng.choice(['b', 'b', 'b', 'b', 'u', 'u', 'u', 'dx', 'dr', 'z', 'L', 'nL'], size=bulk)
+        kinds = rng.choice(['b', 'b', 'b', 'bw', 'bw', 'u', 'u', 'dx', 'dr', 'z', 'L', 'nL'], size=bulk)
         aa = rng.integers(0, 1 << 16, size=bulk)
         kk = rng.integers(-2, 3, size=bulk)
+        wide = rng.integers(4, 28, size=bulk) * rng.choice([-1, 1], size=bulk)
+        kk = np.where(kinds == 'bw', wide, kk)
         specs += [[str(kinds[i]), int(aa[i]), int(kk[i])] for i in range(bulk)]
     n = len(specs)
     pos = np.empty((n, 3), dtype=T)
@@ -135,7 +143,7 @@ def build(d):
             pos[i] = pos[int(a) % i]
         if kind in ('dx', 'dr') and i > 0:
             flags['dup'] = True
-        if kind in ('b', 'z', 'L', 'nL'):
+        if kind in ('b', 'bw', 'z', 'L', 'nL'):
             flags['edge'] = True
         pos[i, coord] = x
         xs.append(x)
@@ -344,9 +352,9 @@ def classes(d):
 
 @st.composite
 def _part(draw):
-    kind = draw(st.sampled_from(['b', 'b', 'b', 'b', 'u', 'u', 'dx', 'dr', 'z', 'L', 'nL']))
+    kind = draw(st.sampled_from(['b', 'b', 'b', 'bw', 'bw', 'u', 'u', 'dx', 'dr', 'z', 'L', 'nL']))
     a = draw(st.integers(0, 65535)) if kind == 'u' else draw(st.integers(0, 64))
-    k = draw(st.integers(-2, 2)) if kind == 'b' else 0
+    k = draw(st.integers(-2, 2)) if kind == 'b' else (draw(st.sampled_from([-1, 1])) * draw(st.integers(4, 27)) if kind == 'bw' else 0)
     return [kind, a, k]
 
 
@@ -388,7 +396,7 @@ def strategy(tier):
 
 # --------------------------------------------------------------------------- exhaustive sub-space
 
-_PATTERN = [['b', 1, 0], ['b', 2, -1], ['dx', 0, 0], ['b', 5, 0], ['z', 0, 0], ['b', 3, 1], ['u', 40000, 0], ['dr', 1, 0], ['b', 4, -2], ['nL', 0, 0], ['b', 2, 0], ['u', 1234, 0], ['b', 1, 2]]
+_PATTERN = [['bw', 3, 20], ['bw', 2, -24], ['b', 1, 0], ['b', 2, -1], ['dx', 0, 0], ['b', 5, 0], ['z', 0, 0], ['b', 3, 1], ['u', 40000, 0], ['dr', 1, 0], ['b', 4, -2], ['nL', 0, 0], ['b', 2, 0], ['u', 1234, 0], ['b', 1, 2]]
 
 
 def exhaustive(tier, shard, nshards):
